@@ -26,6 +26,9 @@ type Ctx struct {
 	instIdx map[string][]*ssa.Function
 	// lastCarrier: set by decodedOrigin — the struct field nearest to the sink through which the decoded value flowed
 	lastCarrier string
+	// nested: this context runs another property's rule set on behalf of a borrowing one; borrows inside it are
+	// skipped (two properties may borrow from each other)
+	nested bool
 }
 
 // RuleSet decides one property.
@@ -397,7 +400,11 @@ func (c *Ctx) instanceMethods(name string) []*ssa.Function {
 // properties (e.g. "the SNP validator is registered as required" for C01 and C02): a change that breaks it is
 // reported by either check. The imported obligations carry this property's id; floors are not imported.
 func (c *Ctx) borrow(prefix string, run func(*Ctx), keep func(rule, construct string) bool) int {
+	if c.nested {
+		return 0
+	}
 	sub := *c
+	sub.nested = true
 	sub.S = report.NewSet(c.S.Property)
 	run(&sub)
 	n := 0
